@@ -10,6 +10,7 @@
 #include "lib/ebus/message.h"
 #include "lib/utils/log.h"
 #include "vout.h"
+#include "pollq.h"
 
 namespace c17 {
 
@@ -200,7 +201,7 @@ class World {
   // the poll queue must hold exactly the defined messages that have a priority, each once ("priority queue with
   // distinct entries"); only pointers are compared, nothing is dereferenced
   string queueProblem() const {
-    const vector<Message*>& c = m_map->m_pollMessages.c;
+    const vector<Message*> c = vp::pollQueueItems(m_map->m_pollMessages);
     int seen[MAXSLOT] = {0, 0, 0, 0};
     for (Message* m : c) {
       int k = slotOf(m);
@@ -335,11 +336,11 @@ class World {
   }
 
   bool heapOk() const {
-    const vector<Message*>& c = m_map->m_pollMessages.c;
+    const vector<Message*> c = vp::pollQueueItems(m_map->m_pollMessages);
     for (Message* m : c) if (slotOf(m) < 0) return true;  // dangling entry: judged by queueProblem(), not dereferenced
     return std::is_heap(c.begin(), c.end(), ebusd::compareMessagePriority());
   }
-  size_t queueSize() const { return m_map->m_pollMessages.c.size(); }
+  size_t queueSize() const { return vp::pollQueueItems(m_map->m_pollMessages).size(); }
 
   // canonical state: everything that can influence future selections, made relative
   string canon(long long g) const {
@@ -380,7 +381,7 @@ class World {
     }
     snprintf(b, sizeof(b), "g%lld|q", g - base);
     s += b;
-    for (Message* m : m_map->m_pollMessages.c) {
+    for (Message* m : vp::pollQueueItems(m_map->m_pollMessages)) {
       int k = slotOf(m);
       s += k < 0 ? '?' : static_cast<char>('0' + k);
     }
